@@ -21,7 +21,7 @@ X64 = True
 RULE = (
     "complete enumeration of training programs: loss kind x optimizer {sgd, adam, chain(clip, scale_by_adam, schedule)} x (n,b) "
     "{divides, does not} x auxiliary generators {none, param, obs, both} x tracked {none, eq, nn+eq} x split of n_iter into a "
-    "chain of resumed solve calls; every solve call is one transition compared with the reference loop from the same state. "
+    "chain of resumed solve calls x execution path {lax.while_loop, Python loop with obs_batch_sharding}; every solve call is one transition compared with the reference loop from the same state. "
     "Non-trivial = consecutive loss values of the run differ (batches/parameters distinguishable); distinct by program."
 )
 ASSUMPTIONS = [
@@ -53,7 +53,11 @@ def cases(tier, seed):
                                     + ["none", "param", "obs", "both"].index(aux) + ["none", "eq", "nn+eq"].index(tracked) + len(split) + sum(split))
                                 if h % 3:
                                     continue
-                            out.append(dict(kind=kind, opt=opt, n=n, b=b, aux=aux, tracked=tracked, split=split, key=seed + 5))
+                            out.append(dict(kind=kind, opt=opt, n=n, b=b, aux=aux, tracked=tracked, split=split, key=seed + 5, path="while_loop"))
+                            if aux in ("obs", "both") and tracked != "nn+eq":
+                                # second execution path of solve: a Python while loop with an un-jitted get_batch when the
+                                # observation batch is placed on a device explicitly (obs_batch_sharding)
+                                out.append(dict(kind=kind, opt=opt, n=n, b=b, aux=aux, tracked=tracked, split=split, key=seed + 5, path="python_loop"))
     out.sort(key=lambda c: (len(c["split"]), sum(c["split"]), c["aux"] != "none", c["tracked"] != "none"))
     return out
 
@@ -101,9 +105,12 @@ def run_case(case):
         ref = tl.reference_loop(k, params, data, P["loss"], opt, opt_state, tracked, P["param_data"], P["obs_data"])
         with warnings.catch_warnings():
             warnings.simplefilter("ignore")
+            kw = {}
+            if case.get("path") == "python_loop":
+                kw["obs_batch_sharding"] = jax.sharding.SingleDeviceSharding(jax.devices()[0])
             out = jinns.solve(n_iter=k, init_params=params, data=data, loss=P["loss"], optimizer=opt, opt_state=opt_state,
-                              tracked_params=tracked, param_data=P["param_data"], obs_data=P["obs_data"], verbose=False)
-        v = compare(site + ("/resumed" if seg else ""), out, ref, k, tracked)
+                              tracked_params=tracked, param_data=P["param_data"], obs_data=P["obs_data"], verbose=False, **kw)
+        v = compare(site + ("/python_loop" if case.get("path") == "python_loop" else "") + ("/resumed" if seg else ""), out, ref, k, tracked)
         states += 1
         tot = ref["totals"]
         if len(tot) >= 2 and np.min(np.abs(np.diff(tot))) > 1e-6 * (1 + np.max(np.abs(tot))):
